@@ -4,6 +4,8 @@ import (
 	"bytes"
 	"context"
 	"fmt"
+	"sync"
+	"sync/atomic"
 	"time"
 
 	"github.com/aws/aws-sdk-go-v2/service/s3"
@@ -52,7 +54,7 @@ func basicSetup(mode string, pre bool) func(w *gwWorld) error {
 				return fmt.Errorf("pre-existing object: %v", r)
 			}
 		}
-		if mode == "versioned" && !pre {
+		if (mode == "versioned" || mode == "history") && !pre {
 			if r := PutVersioning(cl, b, "Enabled"); !r.OK() {
 				return fmt.Errorf("enable versioning: %v", r)
 			}
@@ -131,7 +133,70 @@ func C09(c *core.Ctx, replay string) {
 		env.Close()
 	}
 	c.Extra["behaviours"] = total
+	c09History(c)
 	c09Burst(c)
+}
+
+// c09History: TLC enumerates EVERY word of n letters over {put, delete, toggle versioning,
+// delete-newest-by-id} on one key (mode "history", no view: one behaviour per word), from an
+// empty versioned bucket and from a bucket with an object that predates versioning; all of
+// them are replayed, the state compared after every delete-by-id and at the end.
+func c09History(c *core.Ctx) {
+	type job struct {
+		pre bool
+		b   gwBehaviour
+	}
+	var jobs []job
+	for _, pre := range []bool{false, true} {
+		n := c.Pick(6, 7)
+		if pre {
+			n = c.Pick(5, 6)
+		}
+		res, err := tlc.Run(c.Scratch, tlc.Opts{Module: "S3GwBasic", Workers: 4, MemQueue: true, Timeout: 10 * time.Minute,
+			CfgText: basicCfg("Spec", "history", pre, n, `{"k1"}`, `{"A", "B", "C"}`, "INVARIANT TypeOK\n")})
+		if err != nil || !res.OK {
+			c.Inconclusive("S3GwBasic history enumeration: %v %v", err, res.MustOK())
+			return
+		}
+		c.States += res.Distinct
+		c.Transitions += res.Generated
+		c.TLCRuns = append(c.TLCRuns, res.Summary("S3GwBasic", fmt.Sprintf("history: every word of %d letters, pre=%v", n, pre)))
+		behs := parseBehaviours(res.PrintLines)
+		res.Cleanup()
+		for _, b := range behs {
+			jobs = append(jobs, job{pre, b})
+		}
+	}
+	if len(jobs) == 0 {
+		c.Inconclusive("no history behaviours")
+		return
+	}
+	env := MustEnv(c, true, false, nil)
+	if env == nil {
+		return
+	}
+	defer env.Close()
+	var next int64 = -1
+	var wg sync.WaitGroup
+	for g := 0; g < 8; g++ {
+		wg.Add(1)
+		go func(g int) {
+			defer wg.Done()
+			w := newGwWorld(c, "C09", env, nil)
+			w.stateOps = map[string]bool{"DeleteObjectVersion": true}
+			for {
+				i := int(atomic.AddInt64(&next, 1))
+				if i >= len(jobs) || c.NumViolations() > 40 {
+					return
+				}
+				w.replayBehaviour(1000000+i, jobs[i].b, []string{"bkt"}, []string{"k1"}, basicSetup("history", jobs[i].pre), true)
+				c.Eval(fmt.Sprintf("hist-%d", i))
+				c.TracesValidated++
+			}
+		}(g)
+	}
+	wg.Wait()
+	c.Extra["history_words_replayed"] = len(jobs)
 }
 
 // c09Burst replays write-only behaviours directly on the posix backend, in this
